@@ -55,7 +55,7 @@ def plan(tier, seed):
 def mandatory(tier):
     out = [f"model/{m}" for m in MODELS] + [f"kind/{k}" for k in X.KINDS]
     out += [f"flags/{f}" for f in ["link=False,update=False", "link=False,update=True", "link=True,update=False", "link=True,update=True", "inv"]]
-    out += [f"change/{c}" for c in CHANGES] + ["before_change", "after_change", "updated_buffers_forward", "non_identity"]
+    out += [f"change/{c}" for c in CHANGES] + ["before_change", "after_change", "updated_buffers_forward", "non_identity", "inverse/grid_flag"]
     return out
 
 
@@ -161,6 +161,12 @@ def run_item(ctx, item):
             ctx.count("near_identity_cases")
         ctx.close("inverse_after_forward_is_identity", back, xb, tol, key=f"inverse/{stage}/{'velocity' if velocity else 'linear'}", stage=stage, history=list(history), moved=moved, **info)
         ctx.close("forward_after_inverse_is_identity", fwd, xb, tol, key=f"inverse/{stage}/{'velocity' if velocity else 'linear'}", stage=stage, history=list(history), moved=moved, **info)
+        # the inverse evaluated at its own grid points with the grid flag is the same map (for a composite only the
+        # first member sees undeformed grid points)
+        with ctx.guard("inverse(grid=True)", key=f"exc/inverse_grid_flag/{info['model']}", stage=stage, history=list(history), **info), torch.no_grad():
+            xg = g.coords().unsqueeze(0)
+            ctx.close("inverse_grid_flag_equals_point_map", inv(xg, grid=True), inv(xg).numpy(), 1e-4, key=f"inverse/grid_flag/{'velocity' if velocity else 'linear'}", stage=stage, history=list(history), **info)
+            ctx.bucket("inverse/grid_flag")
         if ready and back_f is not None:
             # update_buffers=True promises an inverse that is ready to use: forward() / disp() without the call hook
             ctx.bucket("updated_buffers_forward")
